@@ -194,6 +194,12 @@ func (g *group) wrapExcessAliases(grid [][]Candidate, descriptions []string) {
 		breakeven += width + 1
 	}
 
+	// Always at least one alias per row, even
+	// when it is larger than half the terminal.
+	if maxColumns < 1 {
+		maxColumns = 1
+	}
+
 	var rows [][]Candidate
 
 	for rowIndex := range grid {
